@@ -29,6 +29,11 @@ impl<T> LinkedList<T> {
     #[verifier::external_body] fn is_empty(&self) -> (r: bool) ensures r == (self@.len() == 0) { unimplemented!() }
 }
 struct BorderHoriz<T> { tag: T, w: usize }
+// BorderHoriz::new / new_type(.., StraightVert, ..) (contracts proved in unit BH: `width` segments)
+impl<T> BorderHoriz<T> {
+    #[verifier::external_body] fn new(width: usize, tag: T) -> (r: BorderHoriz<T>) ensures r.w == width { unimplemented!() }
+    #[verifier::external_body] fn new_vert(width: usize, tag: T) -> (r: BorderHoriz<T>) ensures r.w == width { unimplemented!() }
+}
 // std: Option::get_or_insert_with / as_deref, str::chars().all(char::is_whitespace)
 #[verifier::external_body]
 fn opt_get_or_insert_with<V, F: FnOnce() -> V>(o: &mut Option<V>, f: F) -> (r: &mut V)
@@ -51,6 +56,8 @@ fn ll_any_has_content<T>(l: &LinkedList<RenderLine<T>>) -> (r: bool)
 // R7: the `prefixes` iterator of append_subrender (`repeat(p)` or `once(p).chain(repeat(q))` at every call site): an infinite stream
 #[verifier::external_body] struct Prefixes { x: u8 }
 impl Prefixes {
+    // `std::iter::repeat("")`
+    #[verifier::external_body] fn repeat_empty() -> (r: Prefixes) ensures r.pos() == 0, forall|k: int| (#[trigger] r.at(k)) == Seq::<char>::empty() { unimplemented!() }
     spec fn at(&self, k: int) -> Seq<char>;
     spec fn pos(&self) -> int;
     #[verifier::external_body]
@@ -91,6 +98,7 @@ spec fn emitted<A>(base: Seq<CItem<Vec<A>>>, ignorable: bool, fw: Option<Wrapped
             && (if pre { mt@.drop_last() == stack && ct@.drop_last() == stack && mt@.len() == stack.len() + 1 && ct@.len() == stack.len() + 1 } else { mt@ == stack && ct@ == stack })
     }
 }
+proof fn lemma_empty_prefix() ensures sw(Seq::<char>::empty()) == 0, str_some(Seq::<char>::empty()), short(Seq::<char>::empty()) {}
 // A5: the result of a text filter (at most one combining mark per character) is still short
 #[verifier::external_body]
 proof fn assume_filtered_short(s: Seq<char>) ensures short(s) {}
@@ -887,6 +895,120 @@ impl<D: TextDecorator> SubRenderer<D> {
             self.add_line(newline);
         }
 
+        Ok(())
+    }
+//@end
+//@item src/render/text_renderer.rs :: impl SubRenderer :: fn add_horizontal_line
+//@sub /-> Result<\(\)>/ ==> -> (r: Result<()>)
+//@auto C01 C05
+    fn add_horizontal_line(&mut self, line: BorderHoriz<Vec<D::Annotation>>) -> (r: Result<()>)
+        requires old(self).sr_inv(), tag_ok::<Vec<D::Annotation>>(), //@w
+            line.w <= old(self).width || loose(old(self).options), //@w
+        ensures //@w
+            r.is_ok() ==> final(self).sr_inv(), //@w @C02
+            final(self).same_stacks(old(self)) && final(self).same_config(old(self)) && final(self).decorator == old(self).decorator, //@w @C09
+            old(self).options.allow_width_overflow ==> r.is_ok(), //@w @C11
+            final(self).lines@.len() >= old(self).lines@.len() && final(self).lines@.take(old(self).lines@.len() as int) =~= old(self).lines@, //@w @C03
+            r.is_ok() ==> final(self).wrapping.is_none() && final(self).lines@.last() == RenderLine::Line(line), //@w @C05 #rule_added_last
+    {
+        self.flush_wrapping()?;
+        self.add_line(RenderLine::Line(line));
+        Ok(())
+    }
+//@end
+//@item src/render/text_renderer.rs :: impl Renderer for SubRenderer :: fn add_horizontal_border
+//@sub /-> Result<\(\)>/ ==> -> (r: Result<()>)
+//@auto C01 C05
+    fn add_horizontal_border(&mut self) -> (r: Result<()>)
+        requires old(self).sr_inv(), tag_ok::<Vec<D::Annotation>>(), //@w
+        ensures //@w
+            r.is_ok() ==> final(self).sr_inv(), //@w @C02
+            final(self).same_stacks(old(self)) && final(self).same_config(old(self)) && final(self).decorator == old(self).decorator, //@w @C09
+            old(self).options.allow_width_overflow ==> r.is_ok(), //@w @C11
+            final(self).lines@.len() >= old(self).lines@.len() && final(self).lines@.take(old(self).lines@.len() as int) =~= old(self).lines@, //@w @C03
+            r.is_ok() ==> final(self).wrapping.is_none() && (final(self).lines@.last() matches RenderLine::Line(b) && b.w == old(self).width), //@w @C05 #full_width_rule_added
+    {
+        self.flush_wrapping()?;
+        self.add_line(RenderLine::Line(BorderHoriz::new(
+            self.width,
+            self.ann_stack.clone(),
+        )));
+        Ok(())
+    }
+//@end
+//@item src/render/text_renderer.rs :: impl Renderer for SubRenderer :: fn add_horizontal_border_width
+//@sub /-> Result<\(\)>/ ==> -> (r: Result<()>)
+//@auto C01 C05
+    fn add_horizontal_border_width(&mut self, width: usize) -> (r: Result<()>)
+        requires old(self).sr_inv(), tag_ok::<Vec<D::Annotation>>(), //@w
+            width <= old(self).width || loose(old(self).options), //@w
+        ensures //@w
+            r.is_ok() ==> final(self).sr_inv(), //@w @C02
+            final(self).same_stacks(old(self)) && final(self).same_config(old(self)) && final(self).decorator == old(self).decorator, //@w @C09
+            old(self).options.allow_width_overflow ==> r.is_ok(), //@w @C11
+            final(self).lines@.len() >= old(self).lines@.len() && final(self).lines@.take(old(self).lines@.len() as int) =~= old(self).lines@, //@w @C03
+            r.is_ok() ==> final(self).wrapping.is_none() && (final(self).lines@.last() matches RenderLine::Line(b) && b.w == width), //@w @C05 #rule_of_given_width_added
+    {
+        self.flush_wrapping()?;
+        self.add_line(RenderLine::Line(BorderHoriz::new(
+            width,
+            self.ann_stack.clone(),
+        )));
+        Ok(())
+    }
+//@end
+//@item src/render/text_renderer.rs :: impl Renderer for SubRenderer :: fn append_vert_row
+//@sub /fn append_vert_row<I>\(&mut self, cols: I\) -> Result<\(\)>/ ==> fn append_vert_row(&mut self, cols: Vec<Self>) -> (r: Result<()>)
+//@sub /(?s)\n    where\n        I: IntoIterator<Item = Self>,\n        Self: Sized,/ ==> 
+//@sub /for col in cols/ ==> for col in it: cols
+//@sub /BorderHoriz::new_type\(\s*width,\s*BorderSegHoriz::StraightVert,\s*self\.ann_stack\.clone\(\),\s*\)/ ==> BorderHoriz::new_vert(width, self.ann_stack.clone())
+//@sub /std::iter::repeat\(""\)/ ==> Prefixes::repeat_empty()
+//@sub /let width = self\.width\(\);/ ==> let width = self.width;
+//@auto C01 C05 C02
+    fn append_vert_row(&mut self, cols: Vec<Self>) -> (r: Result<()>)
+        requires old(self).sr_inv(), tag_ok::<Vec<D::Annotation>>(), //@w[
+            // boundary (A6): the cells of a stacked row are rendered at the full width (TB `stacked_full_width`) with the parent's options; A5
+            forall|k: int| 0 <= k < cols@.len() ==> (#[trigger] cols@[k]).sr_inv() && cols@[k].options == old(self).options && (cols@[k].width <= old(self).width || loose(old(self).options))
+                && forall|i: int| 0 <= i < cols@[k].lines@.len() ==> (match #[trigger] cols@[k].lines@[i] { RenderLine::Text(t) => t.len <= 0x2000_0000_0000_0000, RenderLine::Line(b) => b.w <= 0x2000_0000_0000_0000 }),
+        ensures
+            r.is_ok() ==> final(self).sr_inv(), //@w @C02 #stacked_row_lines_fit
+            final(self).same_stacks(old(self)) && final(self).same_config(old(self)), //@w @C09
+            old(self).options.allow_width_overflow ==> r.is_ok(), //@w @C11
+            final(self).lines@.len() >= old(self).lines@.len() && final(self).lines@.take(old(self).lines@.len() as int) =~= old(self).lines@, //@w @C03
+            // a stacked row ends with a full-width rule when borders are drawn (C05)
+            r.is_ok() && old(self).options.draw_borders ==> (final(self).lines@.last() matches RenderLine::Line(b) && b.w == old(self).width), //@w @C05 #stacked_row_ends_with_full_width_rule
+        //@w]
+    {
+        html_trace!("append_vert_row()");
+        html_trace!("self=\n{}", self.to_string());
+
+        self.flush_wrapping()?;
+
+        let width = self.width;
+
+        let mut first = true;
+        for col in it: cols
+            invariant //@w[
+                it.seq() == cols@, self.sr_inv(), tag_ok::<Vec<D::Annotation>>(), width == self.width, self.width == old(self).width,
+                self.same_stacks(old(self)) && self.same_config(old(self)),
+                forall|k: int| 0 <= k < cols@.len() ==> (#[trigger] cols@[k]).sr_inv() && cols@[k].options == old(self).options && (cols@[k].width <= old(self).width || loose(old(self).options))
+                    && forall|i: int| 0 <= i < cols@[k].lines@.len() ==> (match #[trigger] cols@[k].lines@[i] { RenderLine::Text(t) => t.len <= 0x2000_0000_0000_0000, RenderLine::Line(b) => b.w <= 0x2000_0000_0000_0000 }),
+                self.lines@.len() >= old(self).lines@.len() && self.lines@.take(old(self).lines@.len() as int) =~= old(self).lines@,
+            //@w]
+        {
+            proof { assert(col == cols@[it.index@]); lemma_empty_prefix(); } //@w
+            let ghost before = self.lines@; //@w
+            if first {
+                first = false;
+            } else if self.options.draw_borders {
+                let border = BorderHoriz::new_vert(width, self.ann_stack.clone());
+                self.add_horizontal_line(border)?;
+            }
+            self.append_subrender(col, Prefixes::repeat_empty())?;
+        }
+        if self.options.draw_borders {
+            self.add_horizontal_border()?;
+        }
         Ok(())
     }
 //@end
